@@ -81,6 +81,12 @@ SILENT = [
      "    reaching: Set[Instruction] = set(match[0] for match in matches)\n    grew = True\n    while grew:\n        grew = False\n        for ins in reachable:\n            if ins in covered:\n                continue\n            if any(n in reaching for n in ins.next):\n                covered.add(ins)\n                reaching.add(ins)\n                grew = True", ["C20"]),
     ("tealer/utils/regex/regex.py", "    stack: List[Instruction] = [start]\n    while stack:\n        ins = stack.pop()\n        if ins in seen:\n            continue\n        seen.add(ins)\n        reachable.append(ins)\n        # reversed: the first next instruction is explored first\n        stack.extend(reversed(ins.next))\n    return reachable",
      "    def visit(ins: Instruction) -> None:\n        if ins in seen:\n            return\n        seen.add(ins)\n        reachable.append(ins)\n        for next_ins in ins.next:\n            visit(next_ins)\n\n    visit(start)\n    return reachable", ["C20"]),
+    ("tealer/detectors/rekeyto.py",
+     ["        def checks_field(block_ctx: \"BlockTransactionContext\") -> bool:\n            # return False if RekeyTo field can have any address.\n            # return True if RekeyTo should have some address or zero address\n            return not block_ctx.rekeyto.any_addr\n",
+      "    def detect(self) -> \"ListOutput\":"],
+     ["        checks_field = self._rekey_to_is_restricted\n",
+      "    @staticmethod\n    def _rekey_to_is_restricted(block_ctx: \"BlockTransactionContext\") -> bool:\n        return not block_ctx.rekeyto.any_addr\n\n    def detect(self) -> \"ListOutput\":"],
+     ["C01", "C14"]),
     ("tealer/teal/parse_functions.py", "    for bb_copy, bb_orig in zip(all_bbs, original_blocks):\n        bb_copy.idx = bb_orig.idx", "    for position, bb_copy in enumerate(all_bbs):\n        bb_copy.idx = original_blocks[position].idx", ["C12"]),
 ]
 
@@ -98,9 +104,12 @@ def _run_variant(job):
             f, old, new = spec
             p = tmp / f
             s = p.read_text() if p.exists() else ""
-            if old not in s:
-                return kind, name, "skipped (anchor text not present in the current tree)", None
-            p.write_text(s.replace(old, new, 1))
+            pairs = list(zip(old, new)) if isinstance(old, (list, tuple)) else [(old, new)]
+            for o, n_ in pairs:
+                if o not in s:
+                    return kind, name, "skipped (anchor text not present in the current tree)", None
+                s = s.replace(o, n_, 1)
+            p.write_text(s)
         r = subprocess.run([str(VERIF / "check"), prop, "--tier", "quick", "--root", str(tmp), "--evidence-dir", str(tmp / "ev"), "--quiet"],
                            capture_output=True, text=True)
         first = [l for l in r.stdout.splitlines() if "KNOWN-FINDING" not in l][:1]
@@ -125,7 +134,7 @@ def run(pid, ctx, rep):
                     jobs.append(("patch", sid, pid, str(ctx.root), str(patch)))
     for f, old, new, props_ in SILENT:
         if pid in props_:
-            jobs.append(("silent", f"{f.split('/')[-1]}: {old.strip().splitlines()[0][:50]}", pid, str(ctx.root), (f, old, new)))
+            jobs.append(("silent", f"{f.split('/')[-1]}: {(old[0] if isinstance(old, (list, tuple)) else old).strip().splitlines()[0][:50]}", pid, str(ctx.root), (f, old, new)))
     if not jobs:
         rep.note("self-validation: no variants registered for this property")
         return
